@@ -970,17 +970,30 @@ func c01Tables(c *Ctx) {
 		}))
 	}
 	if fn := c.MustFn(hpT + "evictOldest"); fn != nil {
-		// loop variable indexing ents
+		// loop variable indexing ents: element k of t.ents, read either as t.ents[k] or as element k of the prefix
+		// t.ents[:m] (for k, f := range t.ents[:m]); the index is a linear form over a loop-carried variable
+		// (φk for an index loop, φrangeindex+1 for a range loop).
 		k := ""
-		for _, in := range Indexing("$r.ents").F(c.P, fn) {
-			if ia, ok := in.(*ssa.IndexAddr); ok {
-				if _, isPhi := ia.Index.(*ssa.Phi); isPhi && k == "" {
-					if _, inLoopWithDelete := HxReach(in, false, Calls("builtin:delete").F(c.P, fn), nil); inLoopWithDelete {
-						k = Term(ia.Index)
-					}
+		var kLin Lin
+		HxEachInstr(fn, func(in ssa.Instruction) {
+			ia, ok := in.(*ssa.IndexAddr)
+			if !ok || k != "" || !c01EntsPrefix(ia.X) {
+				return
+			}
+			l := Linearize(ia.Index)
+			carried := false
+			for t, cf := range l.Coef {
+				if strings.HasPrefix(t, "φ") && cf == 1 {
+					carried = true
 				}
 			}
-		}
+			if !carried || len(l.Coef) != 1 {
+				return
+			}
+			if _, inLoopWithDelete := HxReach(in, false, Calls("builtin:delete").F(c.P, fn), nil); inLoopWithDelete {
+				k, kLin = l.String(), l
+			}
+		})
 		if k == "" {
 			c.Undecided(rule, "evictOldest deletes only entries whose id is evictCount+k+1", "loop over ents[k] not recognised")
 		} else {
@@ -1003,7 +1016,23 @@ func c01Tables(c *Ctx) {
 								sign = cf
 							}
 						}
-						if sign != 0 && a.L.Coef["$r.evictCount"] == -sign && a.L.Coef[k] == -sign && a.L.K == -sign {
+						if sign == 0 || a.L.Coef["$r.evictCount"] != -sign {
+							continue
+						}
+						// sign*(map[key] - evictCount) - sign*(k + 1) == 0
+						rest := Lin{Coef: map[string]int64{}, K: a.L.K}
+						for t, cf := range a.L.Coef {
+							if t != "$r.evictCount" && !strings.HasPrefix(t, "$r."+mname+"[") {
+								rest.Coef[t] = cf
+							}
+						}
+						var d Lin
+						if sign == 1 {
+							d = rest.Plus(kLin.AddK(1))
+						} else {
+							d = rest.Sub(kLin.AddK(1))
+						}
+						if d.IsConst() && d.K == 0 {
 							found = true
 						}
 					}
@@ -1221,4 +1250,18 @@ func c01(c *Ctx) {
 	c01Decoder(c)
 	c01Tables(c)
 	c01StaticTable(c)
+}
+
+// c01EntsPrefix reports whether v is the receiver's ents slice or a prefix ents[:m] of it (no low bound), so that
+// element k of v is element k of ents.
+func c01EntsPrefix(v ssa.Value) bool {
+	if sl, ok := v.(*ssa.Slice); ok {
+		if sl.Low != nil {
+			if lo, ok := (&HxEval{}).Value(sl.Low); !ok || lo != 0 {
+				return false
+			}
+		}
+		v = sl.X
+	}
+	return Term(v) == "$r.ents"
 }
